@@ -1413,3 +1413,47 @@ package gedcom
 //@   oncall Years do birthY = result
 //@   ensures nil-not-living: implies(node == nil, !result)
 //@   ensures documented: implies(node != nil, result == (nDeaths == 0 && (maxAge == 0.0 || birthY == 0.0 || real(nowY) - birthY <= maxAge)))
+
+// ---------------------------------------------------------------------------
+// C09 / C10: what MergeNodes does with the two nodes. The result is the deep
+// copy of the LEFT node (its identity: tag, value, pointer come from the left)
+// made in the given document; every child of the right node is accounted for
+// exactly once, in order: merged into the first child of the result that
+// Equals it - the merged list of BOTH child lists is installed on that child,
+// whatever its length - or, when there is none, appended as a deep copy.
+//@ func MergeNodes
+//@   props C09 C10
+//@   ghost r0 iface
+//@   ghost cN slice
+//@   ghost nN slice
+//@   ghost merged slice
+//@   ghost copied iface
+//@   ghost nSet int = 0
+//@   ghost nAdd int = 0
+//@   oncall DeepCopy#1 check identity-from-left: arg0 == left && arg1 == document
+//@   oncall DeepCopy#1 do r0 = result
+//@   ghost phase int = 0
+//@   oncall Node.Equals check compares-with-right-child: arg0 == n && arg1 == child
+//@   oncall Node.Equals do phase = 1
+// (rules fire in textual order: the second Nodes() call of an iteration is
+// n.Nodes(), the first child.Nodes())
+//@   oncall Node.Nodes when phase == 2 check of-result-child: arg0 == n
+//@   oncall Node.Nodes when phase == 2 do nN = result; phase = 3
+//@   oncall Node.Nodes when phase == 1 check of-right-child: arg0 == child
+//@   oncall Node.Nodes when phase == 1 do cN = result; phase = 2
+//@   oncall MergeNodeSlices check both-child-lists: arg0 == cN && arg1 == nN && arg2 == document
+//@   oncall MergeNodeSlices do merged = result
+//@   oncall Node.SetNodes check installs-merge: arg0 == n && arg1 == merged
+//@   oncall Node.SetNodes do nSet = nSet + 1
+//@   oncall DeepCopy#2 check copies-right-child: arg0 == child && arg1 == document
+//@   oncall DeepCopy#2 do copied = result
+//@   oncall Node.AddNode check appends-copy: arg0 == r0 && arg1 == copied
+//@   oncall Node.AddNode do nAdd = nAdd + 1
+//@   loop 1 iter every-right-child-once: (nSet - old(nSet)) + (nAdd - old(nAdd)) == 1
+//@   loop 1 nobreak
+//@   ensures identity: implies(isnil(result1), result0 == r0)
+//@   opaque DeepCopy, MergeNodeSlices
+//@ iface Node.SetNodes(nodes)
+//@   assigns H.gedcom.SimpleNode.children, G.gedcom.nodeCache, alloc
+//@ iface Node.Equals(node2)
+//@   assigns nothing
